@@ -1,3 +1,4 @@
+import os
 """Single source for MANIFEST.json."""
 
 ALL = ["C%02d" % i for i in range(1, 20)]
@@ -54,6 +55,10 @@ def manifest():
     engines = {}
     for pid, c in CHECKS.items():
         engines.setdefault(c["engine"], []).append(pid)
+    # specifications of building blocks that run as slices of the checks named here
+    for name, pids in (("HeaderList", ["C02"]), ("ConcQueue", ["C11", "C17"]), ("BatchWriter", ["C17"])):
+        if os.path.isdir(os.path.join(os.path.dirname(os.path.dirname(os.path.abspath(__file__))), "specs", name)):
+            engines.setdefault(name, []).extend(p for p in pids if p in CHECKS)
     return {
         "version": 1,
         "setup_cmd": "bin/setup",
